@@ -258,6 +258,9 @@ def structural(ctx):
     import reader_rules as rr
     C18.rules(ctx)
     rr.r_result_untouched(ctx)
+    # ... and the header the kernels read (norm) is the one derived from the stored vector by both item entry points
+    from props import C19
+    C19.r_stored_leaf(ctx)
 
 
 def run(ctx):
@@ -279,3 +282,5 @@ def run(ctx):
     import reader_rules as rr
     C18.rules(ctx)
     rr.r_result_untouched(ctx)
+    from props import C19
+    C19.r_stored_leaf(ctx)
